@@ -186,6 +186,24 @@ CLAIMED = {
              "(reverse, first, last, length, list, join, map, select, reject, selectattr, rejectattr) are correspondence only.",
         design_ref="§5 C22",
     ),
+    "C39": dict(
+        category="proof",
+        technique="Lean 4 invariant proof over a full executable model of Lexer.tokeniter (all sources, all valid "
+                  "configurations, no bound) + exhaustive/random/structured differential lexing against Environment.lex",
+        text="Theorems (Props/C39.lean over Model/Lex.lean, 21 scanner lemmas in Lemmas/Lex.lean): for every configuration and "
+             "source, if the lexer model succeeds, concatenating the token texts with the removed whitespace re-inserted "
+             "(ghost tokens) gives exactly the preprocessed source (lex_lossless); every removed piece is whitespace "
+             "(removed_is_whitespace); every token's line number is 1 + the number of line breaks before its text "
+             "(token_line_any); a lexer error carries the current line, which lies inside the source (error_line). Tie: the "
+             "model is compared token-for-token (kind, text, line, error kind and line) with the real tokeniter on every "
+             "concatenation of <=2 (quick) / <=3 (thorough) fragments per configuration x 11 configurations, random "
+             "concatenations over an extended alphabet, and structured skeletons lexed through fresh, overlay-of-used and "
+             "Template(...) environments (700k+ sources agreed while building).",
+        note="Trusted: Lean kernel; the hand scanners standing for Python's re (validated only by the differential run); "
+             "measured whitespace class; identifier characters beyond ASCII limited to five; configurations with "
+             "whitespace in delimiters are out of model.",
+        design_ref="§5 C39",
+    ),
 }
 
 NOT_YET = "not yet decided by the Lean model in this revision (machinery for it is not built; see DESIGN.md §8 build order)"
